@@ -121,6 +121,15 @@ func c01Units(tier string) []*Unit {
 			if bound < 0 {
 				continue
 			}
+			if tier != "thorough" {
+				// sized so that every quick unit completes its stated bound within the per-unit deadline
+				if name == "twolevel-cancel" && conc == 1 {
+					continue // > 50 000 schedules at one preemption; thorough explores it in 16 shards
+				}
+				if name == "fanout-fail" && conc == 0 {
+					shards = 8
+				}
+			}
 			sc := scen(fmt.Sprintf("%s/c%s", name, concName(conc)), pg, vlab.Options{Concurrency: conc}, "root")
 			us = append(us, &Unit{Name: sc.Name, Sc: sc, Bound: bound, Prune: true, Check: c01Check(pg), Weight: len(pg.Tasks)*10 + conc, Shards: shards})
 		}
